@@ -30,4 +30,15 @@ Proof. intros c s xsh xs inj Ek. unfold forward, current_of. rewrite Ek. reflexi
 Theorem tie_Delta_records : kind_writes KDelta = DeltaCurrent_forward_writes /\ kind_writes KDelta = DeltaCurrent_clear_resets.
 Proof. split; reflexivity. Qed.
 
+(* the optional constructor arguments default to the values the harness assumes, for the constructor and for
+   partialconstructor alike *)
+Theorem tie_Delta_defaults :
+  mode_of_code DeltaCurrent_default_interp_mode = dflt_mode /\ DeltaCurrent_default_delay NM = dflt_delay NM /\
+  DeltaCurrent_default_interp_tol NM = dflt_tol NM /\ DeltaCurrent_default_current_overbound NM = dflt_cur_ob NM /\
+  DeltaCurrent_default_spike_overbound = dflt_spk_ob /\ DeltaCurrent_default_batch_size = dflt_batch /\ DeltaCurrent_default_inplace = dflt_inplace /\
+  mode_of_code DeltaCurrent_partial_default_interp_mode = dflt_mode /\ DeltaCurrent_partial_default_interp_tol NM = dflt_tol NM /\
+  DeltaCurrent_partial_default_current_overbound NM = dflt_cur_ob NM /\ DeltaCurrent_partial_default_spike_overbound = dflt_spk_ob /\
+  DeltaCurrent_partial_default_inplace = dflt_inplace.
+Proof. repeat split; reflexivity. Qed.
+
 End Tie.
